@@ -487,10 +487,18 @@ func (w *Writer) writeGlobalVariable(g ir.ExprGlobalVariable) (string, error) {
 	// references the texture/sampler global outside of a sample expression
 	// (e.g., textureSize), we still return the first matching combined name.
 	if w.globalIsCombined[g.Variable] {
-		for _, info := range w.combinedSamplers {
+		// Several pairs may use this global: pick the match with the smallest
+		// key so the result does not depend on map iteration order.
+		best := ""
+		for key, info := range w.combinedSamplers {
 			if info.textureHandle == g.Variable || info.samplerHandle == g.Variable {
-				return info.glslName, nil
+				if best == "" || key < best {
+					best = key
+				}
 			}
+		}
+		if best != "" {
+			return w.combinedSamplers[best].glslName, nil
 		}
 	}
 
